@@ -138,7 +138,7 @@ enum Transport {
     Drop { at: u16 },
     /// the same stream framed with CRLF line ends, complete
     CrlfOk,
-    /// CRLF framing, connection closed right AFTER one of the last carriage returns of the body
+    /// CRLF framing, the body ends (cleanly) right AFTER one of the last carriage returns
     /// (`back` = 0 the very last one: a final event whose blank line lacks only its LF)
     CrlfDropAfterCr { back: u8 },
 }
@@ -360,7 +360,7 @@ fn final_turn_s() -> BoxedStrategy<Turn> {
         2 => Just(Transport::Empty),
         4 => any::<u16>().prop_map(|at| Transport::Drop { at }),
         1 => Just(Transport::CrlfOk),
-        3 => (0u8..4).prop_map(|back| Transport::CrlfDropAfterCr { back }),
+        5 => prop_oneof![3 => Just(0u8), 1 => 1u8..4].prop_map(|back| Transport::CrlfDropAfterCr { back }),
     ];
     let end = prop_oneof![
         8 => Just(End::CompletedDone),
@@ -789,12 +789,11 @@ fn render_turn(turn: &Turn, k: usize) -> Reply {
         Transport::CrlfDropAfterCr { back } => {
             let crlf = body.replace('\n', "\r\n");
             let crs: Vec<usize> = crlf.bytes().enumerate().filter(|(_, b)| *b == b'\r').map(|(i, _)| i).collect();
-            let mut r = Reply::sse(partition(crlf.as_bytes(), &turn.cuts));
-            if !crs.is_empty() {
-                let k = crs.len() - 1 - (*back as usize).min(crs.len() - 1);
-                r.drop_after = Some(crs[k] + 1);
-            }
-            r
+            // a body that simply ENDS there (clean end of the response, as a proxy that cuts a
+            // stream short delivers it), not an aborted connection: the pipe's end-of-stream
+            // flush runs, not the transport-error path (abrupt drops at any byte: `Drop`)
+            let end = if crs.is_empty() { crlf.len() } else { crs[crs.len() - 1 - (*back as usize).min(crs.len() - 1)] + 1 };
+            Reply::sse(partition(&crlf.as_bytes()[..end], &turn.cuts))
         }
     }
 }
